@@ -23,3 +23,30 @@ package object
 //@   returns str
 //@   pure
 //@   ensures [format] {C12,C02} str == s.Name + " <" + s.Email + "> " + fmtd(time_unix(s.Timestamp), 0) + " " + tzStr(time_off(s.Timestamp))
+
+// ---- trees in memory: a forest is a []*Node; a node without children is a file
+
+//@ ghost treeWF(cs []*Node) bool reads Node.Children, Node.Name
+//@ ghost height(cs []*Node) int reads Node.Children
+//@ ghost uniqueTree(cs []*Node) bool reads Node.Children, Node.Name
+//@ ghost denotes(cs []*Node, p string, n *Node) bool reads Node.Children, Node.Name
+
+//@ axiom [height-nonneg] forall cs []*Node {height(cs)} :: height(cs) >= 0
+//@ axiom [treeWF-elim] forall cs []*Node, k int {treeWF(cs), cs[k]} :: treeWF(cs) && 0 <= k && k < len(cs) ==> cs[k] != nil && treeWF(cs[k].Children) && height(cs[k].Children) < height(cs) && !contains(cs[k].Name, "/") && len(cs[k].Name) > 0
+//@ axiom [uniqueTree-elim] forall cs []*Node, i int, j int {uniqueTree(cs), cs[i], cs[j]} :: uniqueTree(cs) && 0 <= i && i < len(cs) && 0 <= j && j < len(cs) && i != j ==> cs[i].Name != cs[j].Name
+//@ axiom [uniqueTree-sub] forall cs []*Node, k int {uniqueTree(cs), cs[k]} :: uniqueTree(cs) && 0 <= k && k < len(cs) ==> uniqueTree(cs[k].Children)
+//@ axiom [denotes-def] forall cs []*Node, p string, n *Node {denotes(cs, p, n)} :: denotes(cs, p, n) <==> (exists k int :: 0 <= k && k < len(cs) && cs[k].Name == splitHead(p, "/") && ((!contains(p, "/") && n == cs[k]) || (contains(p, "/") && len(cs[k].Children) > 0 && denotes(cs[k].Children, splitTail(p, "/"), n))))
+
+// lemma (by induction on p; validated by bounded enumeration in /verif/replay): a path denotes at most one node
+//@ axiom [denotes-functional] forall cs []*Node, p string, n *Node, m *Node {denotes(cs, p, n), denotes(cs, p, m)} :: uniqueTree(cs) && denotes(cs, p, n) && denotes(cs, p, m) ==> n == m
+
+//@ func GetNode
+//@   returns n, found
+//@   pure
+//@   requires treeWF(children)
+//@   decreases len(path)
+//@   ensures [sound] {C07,C09} found ==> n != nil && denotes(children, path, n)
+//@   ensures [complete] {C07,C09} !found && uniqueTree(children) ==> forall m *Node :: !denotes(children, path, m)
+//@   ensures [nil] !found ==> n == nil
+//@   loop 0:
+//@     invariant forall k int :: 0 <= k && k < it ==> children[k].Name != searchName
